@@ -67,7 +67,8 @@ def run(tier):
             rep["failures"] = [f for f in rep["failures"] if "DRIFT" not in f["key"]]
             rep["nfail"] -= nd
             _merge(ck, rep, "[%s] " % cfg)
-    ck.cov["distinct_nontrivial"] = len(base)
+    if not ck.cov["distinct_nontrivial"]:
+        ck.cov["distinct_nontrivial"] = len(base)
     ck.cov["transcript_cases"] = len(base)
     ck.cov["operation_families"] = ops
     ck.cov["rule"] = ("transcripts (%d cases: every length 0..%d for generic hash x 4 digest/key pairs, incremental 3-piece chunkings, SHA-512, auth, signatures pure/pre-hashed; 400 kdf/kx/seeded key pairs/scalarmult/sealed-box/box cases; 24 Argon2 parameter sets) "
